@@ -145,6 +145,7 @@ func LoadWorld(repo string, mods ...string) (*World, error) {
 		}
 		return a.Pos() < b.Pos()
 	})
+	w.findRenames()
 	w.findHelpers()
 	w.findCalledClosures()
 	for _, f := range w.lunarFns {
@@ -237,6 +238,26 @@ func (w *World) Named(pkg, name string) *types.Named {
 // pointer or value receiver alike). For generic types the origin (generic
 // body) is returned.
 func (w *World) Fn(pkg, name string) *ssa.Function {
+	if f := w.fnByName(pkg, name); f != nil {
+		return f
+	}
+	// a reviewed function that lives on under another name (adopt.go)
+	for f, id := range renamedAs {
+		if fnPkgPath(f) != pkg {
+			continue
+		}
+		if i := strings.Index(name, "."); i >= 0 {
+			if strings.HasSuffix(id, "."+name[:i]+")."+name[i+1:]) {
+				return f
+			}
+		} else if id == pkg+"."+name {
+			return f
+		}
+	}
+	return nil
+}
+
+func (w *World) fnByName(pkg, name string) *ssa.Function {
 	p := w.ByPath[pkg]
 	if p == nil || p.Types == nil {
 		return nil
